@@ -4,7 +4,8 @@ Allocation-event model of "core programs" (C20).
 
 A core program is a list of operations performed by ordinary code on one thread — creating / resolving / awaiting
 (callback awaiter, blocking-thread awaiter) / destroying future-promise pairs, `try_lock` / release of a coroutine
-mutex, `<<` / `pop` / `clear` on a suspend point, creating / stepping / destroying a synchronous generator, and
+mutex, `<<` / `pop` / `clear` on a suspend point, merging whole suspend points (`<<`, move-assignment, the result of a
+resolution merged into a suspend point object), creating / stepping / destroying a synchronous generator, and
 creating scripted coroutines (`async<T>`, heap or non-heap frame, detached or bound to a promise) whose scripts
 await futures, resolve promises (dropping or awaiting the returned suspend point), lock / hand over mutexes, park,
 `pause()` and step generators.  The model executes the program exactly like the library does on one thread
@@ -227,6 +228,15 @@ def loadSp (s : State) (k : Nat) : State := { s with tmp := s.sps k, sps := upd 
 /-- `S_k.pop()` -/
 def popSp (s : State) (k : Nat) : State :=
   { s with sps := upd s.sps k { s.sps k with handles := (s.sps k).handles.dropLast } }
+
+/-- `S_k << h` for every handle of a batch, in order -/
+def addAllSp (s : State) (k : Nat) : List Nat → State
+  | [] => s
+  | h :: hs => addAllSp (addSp s k h) k hs
+
+/-- `S_k << std::move(tmp)` (also move-assignment): every handle of the incoming suspend point is added one by one,
+then its heap array (if any) is released -/
+def mergeTmpInto (s : State) (k : Nat) : State := freeTmp (addAllSp s k s.tmp.handles)
 
 /-- destructor of the suspend point object `S_k` (empty by now, but its heap array may still be there) -/
 def killSp (s : State) (k : Nat) : State := { freeExt s (s.sps k).ext with sps := upd s.sps k {} }
@@ -460,6 +470,8 @@ inductive Op where
   | sa (k j : Nat)
   | sp (k : Nat)
   | sf (k : Nat)
+  | sm (k k2 : Nat)                  -- `S_k << std::move(S_k2)` / `S_k = std::move(S_k2)`
+  | rm (k i : Nat) (kd : Kind)       -- `S_k << P_i(..)`: the result of a resolution is merged into `S_k`
   | gen (g : Nat) (heap : Bool) (n : Nat)
   | gs (g : Nat) (viaFuture : Bool)
   | gd (g : Nat)
@@ -538,6 +550,8 @@ def step (fuel : Nat) (s : State) : Op → State
       | none => s
       | some h => resumeNormal fuel (setSt (popSp s k) h .active) h
   | .sf k => flushSp fuel s k
+  | .sm k k2 => if k = k2 then s else mergeTmpInto (loadSp s k2) k
+  | .rm k i kd => if (s.futs i).existed then mergeTmpInto (resolve s i kd) k else s
   | .gen g heap n =>
       if (s.gens g).exist then s
       else setGen (allocFrame s heap) g { exist := true, heap := heap, next := 0, n := n, done := false }
